@@ -136,6 +136,11 @@ def snapQuery (sig : Sig) (s : Snap) (q : String) : String :=
   | ["match", p, sub] => showBool (MPat.checkMatch s (parseMPat p) (parseSubst sub))
   | ["mateq", v, n, cs, sub] =>
     showBool (MPat.checkEquation s (parseSubst sub) v (parseNode n) (if cs = "-" then [] else cs.splitOn ","))
+  | ["compress", is] =>
+    -- the union-find table after `unionfind_get` on these ids, in this order (path compression write-backs)
+    (match Snap.compressAll s.uf (if is = "-" then [] else (is.splitOn ",").map nat!) with
+     | some uf' => ",".intercalate (uf'.map showApp)
+     | none => "panic")
   | ["count", i] => (match s.cls (nat! i) with | some c => toString (Grp.count (Snap.group c)) | none => "none")
   | _ => "bad-query"
 
